@@ -108,7 +108,7 @@ let mem (m : Model.node Model.PositiveMap.t) (id : Model.positive) = Model.Posit
 
 (* Ok () | Error (kind, message) *)
 let check ?(kname = "bdd") (pp : psnap) (ps : psnap) (i : int) : (unit, string * string) result =
-  let level_swap = if kname = "bcdd" then Model.level_swap_c else Model.level_swap in
+  let level_swap = if kname = "bcdd" then Model.level_swap_c else if kname = "tdd" then Model.level_swap_t else Model.level_swap in
   let n = Array.length pp.l2v in
   if i + 1 >= n then Error ("corr", "level swap position out of range")
   else if not (Model.wf_b pp.snap) then
@@ -117,6 +117,7 @@ let check ?(kname = "bdd") (pp : psnap) (ps : psnap) (i : int) : (unit, string *
   else begin
     let m = level_swap pp.snap (nat i) in
     stat "c08_swaps_replayed" 1;
+    if kname = "tdd" then stat "c08_tdd_swaps_replayed" 1;
     stat "c08_swap_new_nodes"
       (List.length (List.filter (fun (id, _) -> not (mem pp.snap.Model.s_nodes id)) (Model.PositiveMap.elements m.Model.s_nodes)));
     stat "c08_swap_removed_nodes"
@@ -132,8 +133,10 @@ let max_nodes = match Sys.getenv_opt "C08_REPLAY_MAX_NODES" with Some v -> int_o
 
 (* set_var_order(req) between the snapshots [pp] and [ps]; [None] = not applicable *)
 let check_order ?(kname = "bdd") (pp : psnap) (ps : psnap) (req : int list) : (unit, string * string) result option =
-  let level_swap = if kname = "bcdd" then Model.level_swap_c else Model.level_swap in
-  let set_var_order_model = if kname = "bcdd" then Model.set_var_order_model_c else Model.set_var_order_model in
+  let level_swap = if kname = "bcdd" then Model.level_swap_c else if kname = "tdd" then Model.level_swap_t else Model.level_swap in
+  let set_var_order_model =
+    if kname = "bcdd" then Model.set_var_order_model_c else if kname = "tdd" then Model.set_var_order_model_t
+    else Model.set_var_order_model in
   let n = Array.length pp.l2v in
   let distinct = List.length (List.sort_uniq compare req) = List.length req in
   let nonempty =
@@ -151,6 +154,7 @@ let check_order ?(kname = "bdd") (pp : psnap) (ps : psnap) (req : int list) : (u
     let target = Model.sort_order (nat n) levels in
     let _, swaps = Model.bubble_sort target in
     stat "c08_orders_replayed" 1;
+    if kname = "tdd" then stat "c08_tdd_orders_replayed" 1;
     stat "c08_order_swaps" (List.length swaps);
     let orig : (string, unit) Hashtbl.t = Hashtbl.create 256 in
     List.iter (fun (id, _) -> Hashtbl.replace orig (pid id) ()) (Model.PositiveMap.elements pp.snap.Model.s_nodes);
